@@ -324,3 +324,8 @@ RULES = [
     Rule("C14.W5", rule_W5, floor=6, doc="error translation, both sides"),
     Rule("C14.W6", rule_W6, floor=4, doc="legacy vocabularies"),
 ]
+
+from sa import exits as _exits  # noqa: E402
+
+RULES.append(Rule("C14.RX", _exits.make_rule("C14", "C14.RX", _exits.SCOPES["C14"]), floor=1,
+                  doc="rejection conditions: the anchored functions refuse inputs only under the conditions confirmed on the pinned tree (E16)"))
